@@ -42,346 +42,354 @@ def run(ctx: Context) -> None:
     share_obligations(ctx, c10, {'R10.1'}, 'R06.8')
     facts = polygon_builder_facts(ctx)
     # ------------------------------------------------------------------ R06.1 / R06.2 on the grid builders
-    for fact in facts:
-        fi, pts = fact['fi'], fact['points']
-        if not (isinstance(pts, Arr) and pts.ndim == 3 and pts.axes[0].merged and pts.axes[1].size == const(4) and pts.axes[2].size == const(2)):
-            ctx.check('R06.2', False, "the points array can be derived as (cells, corner, xy)", fi, fact['ret'],
-                      construct=f"{fi.short}: points array not derivable ({pts.why if isinstance(pts, Top) else 'shape ' + (pts.show() if isinstance(pts, Arr) else '?')})")
-            continue
-        order = merged_order(pts.axes[0])
-        c_ax, k_ax = pts.axes[1], pts.axes[2]
-        srcs = {0: set(), 1: set()}
-        corners = []
-        for c in range(4):
-            pick = [None, None]
-            for k in range(2):
-                for lf in leaves(fix(fix(pts.body, c_ax.key, c), k_ax.key, k)):
-                    srcs[k].add(lf.src)
-                    if fact['kind'] == 'bounds-1d':
-                        v = lf.index[1]
-                        pick[k] = int(v.const) if v.is_const else None
-                    elif fact['kind'] == 'nodes' and len(order) == 2:
-                        oy, ox = offset_of(lf.index[0], order[0].key), offset_of(lf.index[1], order[1].key)
-                        pick = [ox, oy]
-                    elif fact['kind'] == 'bounds-2d':
-                        v = lf.index[2]
-                        same = 0 if (v.is_const and int(v.const) == c) else None
-                        pick[k] = same
-            corners.append(tuple(pick))
-        ctx.check('R06.2', srcs[0] == {fact['lon']} and srcs[1] == {fact['lat']}, "slot 0 is longitude, slot 1 is latitude", fi, fact['ret'],
-                  construct=f"{fi.short}: x from {sorted(srcs[0])}, y from {sorted(srcs[1])}")
-        if fact['kind'] == 'bounds-2d':
-            ok = all(cn == (0, 0) for cn in corners)
-            ctx.check('R06.1', ok, "stored 2-D bounds: longitude and latitude use the same corner of the same cell (corner order is the file's)", fi, fact['ret'],
-                      construct=f"{fi.short}: corner axis passed through for both slots")
-        else:
-            ok = all(isinstance(a, int) and isinstance(b, int) for a, b in corners) and gray_cycle([(a, b) for a, b in corners])
-            ctx.check('R06.1', ok, "the four corners walk round the cell (no bow-tie, no repeated corner)", fi, fact['ret'],
-                      construct=f"{fi.short}: corner picks (dx, dy) = {corners}")
-    # UGRID: coords = stack([node_x[nodes], node_y[nodes]], axis=-1), nodes in listed order
-    ug = ctx.func(f"{UGRID}.UGrid._make_polygons")
-    flow = ctx.flow(ug)
-    sp = [c for c in calls_in(ug, nested=True) if callee(ctx, ug, c) == 'shapely.polygons']
-    ctx.need('R06.2', len(sp) == 1 and sp[0].args, "UGrid._make_polygons builds polygons with shapely.polygons", ug)
-    coords = flow.resolve(sp[0].args[0])
-    ok = False
-    detail = norm_text(coords)
-    if isinstance(coords, ast.Call) and callee(ctx, ug, coords) == 'numpy.stack' and isinstance(coords.args[0], (ast.List, ast.Tuple)) \
-            and len(coords.args[0].elts) == 2 and const_value(kwarg(coords, 'axis') or (coords.args[1] if len(coords.args) > 1 else None), None) == -1:
-        a, b = coords.args[0].elts
-        ok = (isinstance(a, ast.Subscript) and isinstance(b, ast.Subscript) and flow.canon(a.slice) == flow.canon(b.slice)
-              and 'node_x' in repr(flow.canon(a.value)) and 'node_y' in repr(flow.canon(b.value))
-              and 'node_y' not in repr(flow.canon(a.value)) and 'node_x' not in repr(flow.canon(b.value)))
-        if ok:
-            nodes = flow.resolve(a.slice)
-            # nodes = getdata(face_node)[indices, :size]: the first `size` listed nodes, in order
-            ok = (isinstance(nodes, ast.Subscript) and isinstance(nodes.slice, ast.Tuple) and isinstance(nodes.slice.elts[1], ast.Slice)
-                  and nodes.slice.elts[1].lower is None and nodes.slice.elts[1].step is None)
-    ctx.check('R06.2', ok, "UGRID points are (node_x[n], node_y[n]) for a face's nodes in listed order", ug, sp[0], construct=f"coords = {detail[:120]}")
-    sizes = [n for n in walk_no_nested(ug.node) if isinstance(n, ast.Assign) and norm_text(n.targets[0]) == 'polygon_sizes']
-    ok = bool(sizes) and norm_text(sizes[0].value).replace(' ', '') in ('numpy.sum(~numpy.ma.getmaskarray(face_node),axis=1)',)
-    ctx.check('R06.2', ok, "a face's vertex count is the number of unmasked entries in its row", ug, sizes[0] if sizes else ug.node)
+    with ctx.section('R06.1 / R06.2 on the grid builders'):
+        for fact in facts:
+            fi, pts = fact['fi'], fact['points']
+            if not (isinstance(pts, Arr) and pts.ndim == 3 and pts.axes[0].merged and pts.axes[1].size == const(4) and pts.axes[2].size == const(2)):
+                ctx.check('R06.2', False, "the points array can be derived as (cells, corner, xy)", fi, fact['ret'],
+                          construct=f"{fi.short}: points array not derivable ({pts.why if isinstance(pts, Top) else 'shape ' + (pts.show() if isinstance(pts, Arr) else '?')})")
+                continue
+            order = merged_order(pts.axes[0])
+            c_ax, k_ax = pts.axes[1], pts.axes[2]
+            srcs = {0: set(), 1: set()}
+            corners = []
+            for c in range(4):
+                pick = [None, None]
+                for k in range(2):
+                    for lf in leaves(fix(fix(pts.body, c_ax.key, c), k_ax.key, k)):
+                        srcs[k].add(lf.src)
+                        if fact['kind'] == 'bounds-1d':
+                            v = lf.index[1]
+                            pick[k] = int(v.const) if v.is_const else None
+                        elif fact['kind'] == 'nodes' and len(order) == 2:
+                            oy, ox = offset_of(lf.index[0], order[0].key), offset_of(lf.index[1], order[1].key)
+                            pick = [ox, oy]
+                        elif fact['kind'] == 'bounds-2d':
+                            v = lf.index[2]
+                            same = 0 if (v.is_const and int(v.const) == c) else None
+                            pick[k] = same
+                corners.append(tuple(pick))
+            ctx.check('R06.2', srcs[0] == {fact['lon']} and srcs[1] == {fact['lat']}, "slot 0 is longitude, slot 1 is latitude", fi, fact['ret'],
+                      construct=f"{fi.short}: x from {sorted(srcs[0])}, y from {sorted(srcs[1])}")
+            if fact['kind'] == 'bounds-2d':
+                ok = all(cn == (0, 0) for cn in corners)
+                ctx.check('R06.1', ok, "stored 2-D bounds: longitude and latitude use the same corner of the same cell (corner order is the file's)", fi, fact['ret'],
+                          construct=f"{fi.short}: corner axis passed through for both slots")
+            else:
+                ok = all(isinstance(a, int) and isinstance(b, int) for a, b in corners) and gray_cycle([(a, b) for a, b in corners])
+                ctx.check('R06.1', ok, "the four corners walk round the cell (no bow-tie, no repeated corner)", fi, fact['ret'],
+                          construct=f"{fi.short}: corner picks (dx, dy) = {corners}")
+        # UGRID: coords = stack([node_x[nodes], node_y[nodes]], axis=-1), nodes in listed order
+        ug = ctx.func(f"{UGRID}.UGrid._make_polygons")
+        flow = ctx.flow(ug)
+        sp = [c for c in calls_in(ug, nested=True) if callee(ctx, ug, c) == 'shapely.polygons']
+        ctx.need('R06.2', len(sp) == 1 and sp[0].args, "UGrid._make_polygons builds polygons with shapely.polygons", ug)
+        coords = flow.resolve(sp[0].args[0])
+        ok = False
+        detail = norm_text(coords)
+        if isinstance(coords, ast.Call) and callee(ctx, ug, coords) == 'numpy.stack' and isinstance(coords.args[0], (ast.List, ast.Tuple)) \
+                and len(coords.args[0].elts) == 2 and const_value(kwarg(coords, 'axis') or (coords.args[1] if len(coords.args) > 1 else None), None) == -1:
+            a, b = coords.args[0].elts
+            ok = (isinstance(a, ast.Subscript) and isinstance(b, ast.Subscript) and flow.canon(a.slice) == flow.canon(b.slice)
+                  and 'node_x' in repr(flow.canon(a.value)) and 'node_y' in repr(flow.canon(b.value))
+                  and 'node_y' not in repr(flow.canon(a.value)) and 'node_x' not in repr(flow.canon(b.value)))
+            if ok:
+                nodes = flow.resolve(a.slice)
+                # nodes = getdata(face_node)[indices, :size]: the first `size` listed nodes, in order
+                ok = (isinstance(nodes, ast.Subscript) and isinstance(nodes.slice, ast.Tuple) and isinstance(nodes.slice.elts[1], ast.Slice)
+                      and nodes.slice.elts[1].lower is None and nodes.slice.elts[1].step is None)
+        ctx.check('R06.2', ok, "UGRID points are (node_x[n], node_y[n]) for a face's nodes in listed order", ug, sp[0], construct=f"coords = {detail[:120]}")
+        sizes = [n for n in walk_no_nested(ug.node) if isinstance(n, ast.Assign) and norm_text(n.targets[0]) == 'polygon_sizes']
+        ok = bool(sizes) and norm_text(sizes[0].value).replace(' ', '') in ('numpy.sum(~numpy.ma.getmaskarray(face_node),axis=1)',)
+        ctx.check('R06.2', ok, "a face's vertex count is the number of unmasked entries in its row", ug, sizes[0] if sizes else ug.node)
 
     # ------------------------------------------------------------------ R06.3 bounds
-    Y, X = size_sym('y_dimension'), size_sym('x_dimension')
-    N = symbol(('size', 'coordinate.dims[0]'))
-    b1 = ctx.func(f"{GRID}.CFGrid1DTopology._get_or_make_bounds")
-    b2 = ctx.func(f"{GRID}.CFGrid2DTopology._get_or_make_bounds")
-    flow1, flow2 = ctx.flow(b1), ctx.flow(b2)
+    with ctx.section('R06.3 bounds'):
+        Y, X = size_sym('y_dimension'), size_sym('x_dimension')
+        N = symbol(('size', 'coordinate.dims[0]'))
+        b1 = ctx.func(f"{GRID}.CFGrid1DTopology._get_or_make_bounds")
+        b2 = ctx.func(f"{GRID}.CFGrid2DTopology._get_or_make_bounds")
+        flow1, flow2 = ctx.flow(b1), ctx.flow(b2)
 
-    def guard_text(fi):
-        out = []
-        for n in walk_no_nested(fi.node):
-            if isinstance(n, ast.With):
-                for st in n.body:
-                    if isinstance(st, ast.If) and any(isinstance(s, ast.Return) for s in st.body):
-                        out.append(st)
-        return out
+        def guard_text(fi):
+            out = []
+            for n in walk_no_nested(fi.node):
+                if isinstance(n, ast.With):
+                    for st in n.body:
+                        if isinstance(st, ast.If) and any(isinstance(s, ast.Return) for s in st.body):
+                            out.append(st)
+            return out
 
-    g1 = guard_text(b1)
-    want1 = "len(bounds.dims) == 2 and bounds.dims[0] == coordinate.dims[0] and (self.dataset.sizes[bounds.dims[1]] == 2)"
-    ok = len(g1) == 1 and norm_text(g1[0].test) == want1 and all(norm_text(s.value) == 'bounds' for s in g1[0].body if isinstance(s, ast.Return))
-    ctx.check('R06.3', ok, "1-D stored bounds are used only when their dims are (coordinate dimension, 2)", b1, g1[0] if g1 else b1.node,
-              construct=f"guard: {norm_text(g1[0].test) if g1 else 'absent'}")
-    g2 = guard_text(b2)
-    want2 = "len(bounds.dims) == 3 and bounds.dims[0] == self.y_dimension and (bounds.dims[1] == self.x_dimension) and (self.dataset.sizes[bounds.dims[2]] == 4)"
-    ok = len(g2) == 1 and norm_text(g2[0].test) == want2
-    ctx.check('R06.3', ok, "2-D stored bounds are used only when their dims are (y, x, 4)", b2, g2[0] if g2 else b2.node,
-              construct=f"guard: {norm_text(g2[0].test) if g2 else 'absent'}")
-    # 1-D synthesis
-    it, src = interpret(ctx, b1, {'coordinate': ('cv', [N])}, {})
-    val = it.returns[0][1] if it.returns else None
-    ok = False
-    detail = 'no DataArray returned'
-    if isinstance(val, DataArrayVal) and isinstance(val.data, Arr) and val.data.ndim == 2:
-        a = val.data
-        detail = f"shape {a.show()}"
-        if a.axes[0].size == N and a.axes[1].size == const(2):
-            l0 = leaves(fix(a.body, a.axes[1].key, 0))
-            l1 = leaves(fix(a.body, a.axes[1].key, 1))
-            if len(l0) == 1 and len(l1) == 1 and l0[0].src == l1[0].src and l0[0].src.startswith('concat@'):
-                o0, o1 = offset_of(l0[0].index[0], a.axes[0].key), offset_of(l1[0].index[0], a.axes[0].key)
-                ok = (o0, o1) == (0, 1)
-                detail += f", columns = midpoints[i+{o0}], midpoints[i+{o1}]"
-    elif isinstance(val, DataArrayVal) and isinstance(val.data, Top):
-        detail = val.data.why
-    ctx.check('R06.3', ok, "synthesised 1-D bounds pair midpoint i with midpoint i+1 and have one row per coordinate value", b1,
-              it.returns[0][0] if it.returns else b1.node, construct=f"1-D bounds: {detail}")
-    dims_ok = isinstance(val, DataArrayVal) and val.dims is not None and len(val.dims) == 2 and norm_text(val.dims[0]) == 'coordinate.dims[0]'
-    ctx.check('R06.3', dims_ok, "synthesised 1-D bounds are on the coordinate's own dimension", b1, it.returns[0][0] if it.returns else b1.node,
-              construct=f"dims = {[norm_text(d) for d in val.dims] if isinstance(val, DataArrayVal) and val.dims else '?'}")
-    ok = False
-    detail = 'midpoints are not a concatenation'
-    if it.concats:
-        call, pieces = next(iter(it.concats.values()))
-        texts = [norm_text(flow1.resolve(node)) for _, _, node in pieces]
-        gaps = {norm_text(n.targets[0]): norm_text(n.value) for n in walk_no_nested(b1.node) if isinstance(n, ast.Assign)
-                and isinstance(n.targets[0], ast.Name) and n.targets[0].id in ('first_gap', 'last_gap')}
-        ok = (texts == ['[values[0] - first_gap / 2]', '(values[1:] + values[:-1]) / 2', '[values[-1] + last_gap / 2]']
-              and gaps == {'first_gap': 'values[1] - values[0]', 'last_gap': 'values[-1] - values[-2]'})
-        detail = f"pieces {texts}; gaps {gaps}"
-    ctx.check('R06.3', ok, "midpoints = [v0 - gap0/2] + pairwise means + [vN + gapN/2] (both ends extended by half the adjacent gap)", b1, b1.node,
-              construct=f"1-D midpoints: {detail}")
-    # 2-D synthesis
-    it2, src2 = interpret(ctx, b2, {'coordinate': ('cv', [Y, X])}, {'self.shape': [Y, X]})
-    val = it2.returns[0][1] if it2.returns else None
-    ok_shape = ok_nb = ok_gray = False
-    detail = 'no DataArray returned'
-    corners = []
-    if isinstance(val, DataArrayVal) and isinstance(val.data, Arr):
-        a = val.data
-        detail = f"shape {a.show()}"
-        if a.ndim == 3 and a.axes[0].size == Y and a.axes[1].size == X and a.axes[2].size == const(4):
-            ok_shape = True
-            ok_nb = True
-            for c in range(4):
-                offs = set()
-                for lf in leaves(fix(a.body, a.axes[2].key, c)):
-                    if lf.src != 'cv':
+        g1 = guard_text(b1)
+        want1 = "len(bounds.dims) == 2 and bounds.dims[0] == coordinate.dims[0] and (self.dataset.sizes[bounds.dims[1]] == 2)"
+        ok = len(g1) == 1 and norm_text(g1[0].test) == want1 and all(norm_text(s.value) == 'bounds' for s in g1[0].body if isinstance(s, ast.Return))
+        ctx.check('R06.3', ok, "1-D stored bounds are used only when their dims are (coordinate dimension, 2)", b1, g1[0] if g1 else b1.node,
+                  construct=f"guard: {norm_text(g1[0].test) if g1 else 'absent'}")
+        g2 = guard_text(b2)
+        want2 = "len(bounds.dims) == 3 and bounds.dims[0] == self.y_dimension and (bounds.dims[1] == self.x_dimension) and (self.dataset.sizes[bounds.dims[2]] == 4)"
+        ok = len(g2) == 1 and norm_text(g2[0].test) == want2
+        ctx.check('R06.3', ok, "2-D stored bounds are used only when their dims are (y, x, 4)", b2, g2[0] if g2 else b2.node,
+                  construct=f"guard: {norm_text(g2[0].test) if g2 else 'absent'}")
+        # 1-D synthesis
+        it, src = interpret(ctx, b1, {'coordinate': ('cv', [N])}, {})
+        val = it.returns[0][1] if it.returns else None
+        ok = False
+        detail = 'no DataArray returned'
+        if isinstance(val, DataArrayVal) and isinstance(val.data, Arr) and val.data.ndim == 2:
+            a = val.data
+            detail = f"shape {a.show()}"
+            if a.axes[0].size == N and a.axes[1].size == const(2):
+                l0 = leaves(fix(a.body, a.axes[1].key, 0))
+                l1 = leaves(fix(a.body, a.axes[1].key, 1))
+                if len(l0) == 1 and len(l1) == 1 and l0[0].src == l1[0].src and l0[0].src.startswith('concat@'):
+                    o0, o1 = offset_of(l0[0].index[0], a.axes[0].key), offset_of(l1[0].index[0], a.axes[0].key)
+                    ok = (o0, o1) == (0, 1)
+                    detail += f", columns = midpoints[i+{o0}], midpoints[i+{o1}]"
+        elif isinstance(val, DataArrayVal) and isinstance(val.data, Top):
+            detail = val.data.why
+        ctx.check('R06.3', ok, "synthesised 1-D bounds pair midpoint i with midpoint i+1 and have one row per coordinate value", b1,
+                  it.returns[0][0] if it.returns else b1.node, construct=f"1-D bounds: {detail}")
+        dims_ok = isinstance(val, DataArrayVal) and val.dims is not None and len(val.dims) == 2 and norm_text(val.dims[0]) == 'coordinate.dims[0]'
+        ctx.check('R06.3', dims_ok, "synthesised 1-D bounds are on the coordinate's own dimension", b1, it.returns[0][0] if it.returns else b1.node,
+                  construct=f"dims = {[norm_text(d) for d in val.dims] if isinstance(val, DataArrayVal) and val.dims else '?'}")
+        ok = False
+        detail = 'midpoints are not a concatenation'
+        if it.concats:
+            call, pieces = next(iter(it.concats.values()))
+            texts = [norm_text(flow1.resolve(node)) for _, _, node in pieces]
+            gaps = {norm_text(n.targets[0]): norm_text(n.value) for n in walk_no_nested(b1.node) if isinstance(n, ast.Assign)
+                    and isinstance(n.targets[0], ast.Name) and n.targets[0].id in ('first_gap', 'last_gap')}
+            ok = (texts == ['[values[0] - first_gap / 2]', '(values[1:] + values[:-1]) / 2', '[values[-1] + last_gap / 2]']
+                  and gaps == {'first_gap': 'values[1] - values[0]', 'last_gap': 'values[-1] - values[-2]'})
+            detail = f"pieces {texts}; gaps {gaps}"
+        ctx.check('R06.3', ok, "midpoints = [v0 - gap0/2] + pairwise means + [vN + gapN/2] (both ends extended by half the adjacent gap)", b1, b1.node,
+                  construct=f"1-D midpoints: {detail}")
+        # 2-D synthesis
+        it2, src2 = interpret(ctx, b2, {'coordinate': ('cv', [Y, X])}, {'self.shape': [Y, X]})
+        val = it2.returns[0][1] if it2.returns else None
+        ok_shape = ok_nb = ok_gray = False
+        detail = 'no DataArray returned'
+        corners = []
+        if isinstance(val, DataArrayVal) and isinstance(val.data, Arr):
+            a = val.data
+            detail = f"shape {a.show()}"
+            if a.ndim == 3 and a.axes[0].size == Y and a.axes[1].size == X and a.axes[2].size == const(4):
+                ok_shape = True
+                ok_nb = True
+                for c in range(4):
+                    offs = set()
+                    for lf in leaves(fix(a.body, a.axes[2].key, c)):
+                        if lf.src != 'cv':
+                            continue
+                        offs.add((offset_of(lf.index[0], a.axes[0].key), offset_of(lf.index[1], a.axes[1].key)))
+                    if len(offs) != 4 or any(o[0] is None or o[1] is None for o in offs):
+                        ok_nb = False
+                        corners.append(None)
                         continue
-                    offs.add((offset_of(lf.index[0], a.axes[0].key), offset_of(lf.index[1], a.axes[1].key)))
-                if len(offs) != 4 or any(o[0] is None or o[1] is None for o in offs):
-                    ok_nb = False
-                    corners.append(None)
-                    continue
-                dy, dx = max(o[0] for o in offs), max(o[1] for o in offs)
-                if offs != {(dy - i, dx - j) for i in (0, 1) for j in (0, 1)}:
-                    ok_nb = False
-                corners.append((dx, dy))
-            ok_gray = all(cn is not None for cn in corners) and gray_cycle([cn for cn in corners])
-    elif isinstance(val, DataArrayVal) and isinstance(val.data, Top):
-        detail = val.data.why
-    ctx.check('R06.3', ok_shape, "synthesised 2-D bounds have shape (y, x, 4)", b2, it2.returns[0][0] if it2.returns else b2.node,
-              construct=f"2-D bounds: {detail}")
-    ctx.check('R06.3', ok_nb, "each corner is the mean of exactly the four cell centres around it", b2, b2.node,
-              construct=f"2-D bounds: corner neighbourhoods complete={ok_nb}")
-    ctx.check('R06.1', ok_gray, "the four synthesised corners walk round the cell", b2, b2.node, construct=f"2-D synthesised corner picks (dx, dy) = {corners}")
-    dims_ok = isinstance(val, DataArrayVal) and val.dims is not None and [norm_text(d) for d in val.dims[:2]] == ['self.y_dimension', 'self.x_dimension']
-    ctx.check('R06.3', dims_ok, "synthesised 2-D bounds are on (y_dimension, x_dimension)", b2, b2.node,
-              construct=f"dims = {[norm_text(d) for d in val.dims] if isinstance(val, DataArrayVal) and val.dims else '?'}")
-    pads = _pad_calls(ctx, b2)
-    ctx.need('R06.3', len(pads) >= 3, "the 2-D synthesis pads the centre array", b2)
-    for c in pads:
-        cvv = kwarg(c, 'constant_values')
-        arg = flow2.resolve(c.args[0])
-        is_mask = flow2.reaches(c.args[0], lambda n: isinstance(n, ast.Call) and callee(ctx, b2, n) == 'numpy.isnan')
-        if is_mask:
-            ok = cvv is not None and const_value(cvv, None) is False
-            ctx.check('R06.3', ok, "the missing-centre mask is padded with False: outside the grid is not a missing cell", b2, c,
-                      construct=f"pad of the nan mask: constant_values={norm_text(cvv) if cvv is not None else 'default'}")
-        else:
-            ok = cvv is not None and norm_text(cvv).endswith('nan')
-            ctx.check('R06.3', ok, "centre values are padded with NaN so that the mean ignores the outside", b2, c,
-                      construct=f"pad of the centre values: constant_values={norm_text(cvv) if cvv is not None else 'default'}")
-    means = [c for c in calls_in(b2, nested=True) if (callee(ctx, b2, c) or '').startswith('numpy.') and (callee(ctx, b2, c) or '').endswith('mean')]
-    ok = len(means) == 1 and callee(ctx, b2, means[0]) == 'numpy.nanmean'
-    ctx.check('R06.3', ok, "corners are a nanmean (missing neighbours are ignored, not propagated)", b2, means[0] if means else b2.node,
-              construct=f"mean: {callee(ctx, b2, means[0]) if means else 'absent'}")
-    # sandwiched cells and cells with nan corners
-    sand = {norm_text(n.targets[0]): norm_text(n.value) for n in walk_no_nested(b2.node) if isinstance(n, ast.Assign)
-            and isinstance(n.targets[0], ast.Name) and n.targets[0].id in ('j_bound_by_nan', 'i_bound_by_nan', 'bound_by_nan')}
-    ok = sand == {'j_bound_by_nan': 'j_pad[:-2, :] & j_pad[2:, :]', 'i_bound_by_nan': 'i_pad[:, :-2] & i_pad[:, 2:]',
-                  'bound_by_nan': 'j_bound_by_nan | i_bound_by_nan'}
-    ctx.check('R06.3', ok, "only a centre with missing neighbours on both sides of an axis is discarded", b2, b2.node,
-              construct=f"sandwich test: {sand}")
-    blank = [n for n in walk_no_nested(b2.node) if isinstance(n, ast.Assign) and norm_text(n.targets[0]) == 'cells_with_nans']
-    ok = bool(blank) and norm_text(blank[0].value) in ('numpy.isnan(bounds).any(axis=2)', 'numpy.isnan(bounds).any(axis=-1)')
-    setn = [n for n in walk_no_nested(b2.node) if isinstance(n, ast.Assign) and norm_text(n.targets[0]) == 'bounds[cells_with_nans]']
-    ok = ok and len(setn) == 1 and norm_text(setn[0].value).endswith('nan')
-    ctx.check('R06.3', ok, "a cell with any missing corner gets no polygon (all four corners blanked)", b2, blank[0] if blank else b2.node,
-              construct=f"blanking: {norm_text(blank[0]) if blank else 'absent'}")
-    # make_polygons_with_holes skips rows with a non finite coordinate (R02.3 checks the pairing)
+                    dy, dx = max(o[0] for o in offs), max(o[1] for o in offs)
+                    if offs != {(dy - i, dx - j) for i in (0, 1) for j in (0, 1)}:
+                        ok_nb = False
+                    corners.append((dx, dy))
+                ok_gray = all(cn is not None for cn in corners) and gray_cycle([cn for cn in corners])
+        elif isinstance(val, DataArrayVal) and isinstance(val.data, Top):
+            detail = val.data.why
+        ctx.check('R06.3', ok_shape, "synthesised 2-D bounds have shape (y, x, 4)", b2, it2.returns[0][0] if it2.returns else b2.node,
+                  construct=f"2-D bounds: {detail}")
+        ctx.check('R06.3', ok_nb, "each corner is the mean of exactly the four cell centres around it", b2, b2.node,
+                  construct=f"2-D bounds: corner neighbourhoods complete={ok_nb}")
+        ctx.check('R06.1', ok_gray, "the four synthesised corners walk round the cell", b2, b2.node, construct=f"2-D synthesised corner picks (dx, dy) = {corners}")
+        dims_ok = isinstance(val, DataArrayVal) and val.dims is not None and [norm_text(d) for d in val.dims[:2]] == ['self.y_dimension', 'self.x_dimension']
+        ctx.check('R06.3', dims_ok, "synthesised 2-D bounds are on (y_dimension, x_dimension)", b2, b2.node,
+                  construct=f"dims = {[norm_text(d) for d in val.dims] if isinstance(val, DataArrayVal) and val.dims else '?'}")
+        pads = _pad_calls(ctx, b2)
+        ctx.need('R06.3', len(pads) >= 3, "the 2-D synthesis pads the centre array", b2)
+        for c in pads:
+            cvv = kwarg(c, 'constant_values')
+            arg = flow2.resolve(c.args[0])
+            is_mask = flow2.reaches(c.args[0], lambda n: isinstance(n, ast.Call) and callee(ctx, b2, n) == 'numpy.isnan')
+            if is_mask:
+                ok = cvv is not None and const_value(cvv, None) is False
+                ctx.check('R06.3', ok, "the missing-centre mask is padded with False: outside the grid is not a missing cell", b2, c,
+                          construct=f"pad of the nan mask: constant_values={norm_text(cvv) if cvv is not None else 'default'}")
+            else:
+                ok = cvv is not None and norm_text(cvv).endswith('nan')
+                ctx.check('R06.3', ok, "centre values are padded with NaN so that the mean ignores the outside", b2, c,
+                          construct=f"pad of the centre values: constant_values={norm_text(cvv) if cvv is not None else 'default'}")
+        means = [c for c in calls_in(b2, nested=True) if (callee(ctx, b2, c) or '').startswith('numpy.') and (callee(ctx, b2, c) or '').endswith('mean')]
+        ok = len(means) == 1 and callee(ctx, b2, means[0]) == 'numpy.nanmean'
+        ctx.check('R06.3', ok, "corners are a nanmean (missing neighbours are ignored, not propagated)", b2, means[0] if means else b2.node,
+                  construct=f"mean: {callee(ctx, b2, means[0]) if means else 'absent'}")
+        # sandwiched cells and cells with nan corners
+        sand = {norm_text(n.targets[0]): norm_text(n.value) for n in walk_no_nested(b2.node) if isinstance(n, ast.Assign)
+                and isinstance(n.targets[0], ast.Name) and n.targets[0].id in ('j_bound_by_nan', 'i_bound_by_nan', 'bound_by_nan')}
+        ok = sand == {'j_bound_by_nan': 'j_pad[:-2, :] & j_pad[2:, :]', 'i_bound_by_nan': 'i_pad[:, :-2] & i_pad[:, 2:]',
+                      'bound_by_nan': 'j_bound_by_nan | i_bound_by_nan'}
+        ctx.check('R06.3', ok, "only a centre with missing neighbours on both sides of an axis is discarded", b2, b2.node,
+                  construct=f"sandwich test: {sand}")
+        blank = [n for n in walk_no_nested(b2.node) if isinstance(n, ast.Assign) and norm_text(n.targets[0]) == 'cells_with_nans']
+        ok = bool(blank) and norm_text(blank[0].value) in ('numpy.isnan(bounds).any(axis=2)', 'numpy.isnan(bounds).any(axis=-1)')
+        setn = [n for n in walk_no_nested(b2.node) if isinstance(n, ast.Assign) and norm_text(n.targets[0]) == 'bounds[cells_with_nans]']
+        ok = ok and len(setn) == 1 and norm_text(setn[0].value).endswith('nan')
+        ctx.check('R06.3', ok, "a cell with any missing corner gets no polygon (all four corners blanked)", b2, blank[0] if blank else b2.node,
+                  construct=f"blanking: {norm_text(blank[0]) if blank else 'absent'}")
+        # make_polygons_with_holes skips rows with a non finite coordinate (R02.3 checks the pairing)
 
     # ------------------------------------------------------------------ R06.4 lookup namespace
-    topo_classes = [f"{GRID}.CFGrid1DTopology", f"{GRID}.CFGrid2DTopology", f"{GRID}.CFGridTopology", f"{UGRID}.Mesh2DTopology",
-                    f"{ARAKAWA}.ArakawaCGridTopology"]
-    n_sites = 0
-    for cq in topo_classes:
-        ci = p.cls(cq)
-        for fi in ci.methods.values():
-            flow = ctx.flow(fi)
-            for node in ast.walk(fi.node):
-                if not (isinstance(node, ast.Subscript) and isinstance(node.ctx, ast.Load)):
-                    continue
-                v = node.value
-                ns = None
-                if isinstance(v, ast.Attribute) and v.attr in (PARTIAL_NS | DATASET_WIDE) and norm_text(v.value) in ('self.dataset', 'dataset'):
-                    ns = v.attr
-                elif norm_text(v) in ('self.dataset', 'dataset'):
-                    ns = 'dataset'
-                if ns is None:
-                    continue
-                key = flow.resolve(node.slice)
-                kt = norm_text(key)
-                named_by_attr = ("attrs['bounds']" in kt or "attrs.get('bounds'" in kt or '_coordinates[' in kt
-                                 or kt.endswith('longitude_name') or kt.endswith('latitude_name'))
-                if not named_by_attr:
-                    continue
-                n_sites += 1
-                ctx.check('R06.4', ns in ({'dataset'} | DATASET_WIDE), "coordinate / bounds variables are looked up dataset-wide", fi, node,
-                          construct=f"{fi.short}: {norm_text(node)}", detail=f"namespace `{ns}` does not contain variables promoted to coordinates" if ns in PARTIAL_NS else '')
+    with ctx.section('R06.4 lookup namespace'):
+        topo_classes = [f"{GRID}.CFGrid1DTopology", f"{GRID}.CFGrid2DTopology", f"{GRID}.CFGridTopology", f"{UGRID}.Mesh2DTopology",
+                        f"{ARAKAWA}.ArakawaCGridTopology"]
+        n_sites = 0
+        for cq in topo_classes:
+            ci = p.cls(cq)
+            for fi in ci.methods.values():
+                flow = ctx.flow(fi)
+                for node in ast.walk(fi.node):
+                    if not (isinstance(node, ast.Subscript) and isinstance(node.ctx, ast.Load)):
+                        continue
+                    v = node.value
+                    ns = None
+                    if isinstance(v, ast.Attribute) and v.attr in (PARTIAL_NS | DATASET_WIDE) and norm_text(v.value) in ('self.dataset', 'dataset'):
+                        ns = v.attr
+                    elif norm_text(v) in ('self.dataset', 'dataset'):
+                        ns = 'dataset'
+                    if ns is None:
+                        continue
+                    key = flow.resolve(node.slice)
+                    kt = norm_text(key)
+                    named_by_attr = ("attrs['bounds']" in kt or "attrs.get('bounds'" in kt or '_coordinates[' in kt
+                                     or kt.endswith('longitude_name') or kt.endswith('latitude_name'))
+                    if not named_by_attr:
+                        continue
+                    n_sites += 1
+                    ctx.check('R06.4', ns in ({'dataset'} | DATASET_WIDE), "coordinate / bounds variables are looked up dataset-wide", fi, node,
+                              construct=f"{fi.short}: {norm_text(node)}", detail=f"namespace `{ns}` does not contain variables promoted to coordinates" if ns in PARTIAL_NS else '')
+
     # ------------------------------------------------------------------ R06.5 optional attributes in scans
-    scans = []
-    for fi in p.functions.values():
-        if not fi.qualname.startswith('emsarray.conventions.') or fi.parent is not None:
-            continue
-        for node in ast.walk(fi.node):
-            if isinstance(node, (ast.GeneratorExp, ast.ListComp)) and len(node.generators) == 1:
-                it_txt = norm_text(node.generators[0].iter)
-                if any(it_txt.endswith(s) for s in ('.variables.items()', '.data_vars.items()', '.data_vars.values()', '.variables.values()', '.coords.items()')):
-                    scans.append((fi, node))
-    for fi, node in scans:
-        bad = []
-        for sub in ast.walk(node):
-            if isinstance(sub, ast.Subscript) and isinstance(sub.value, ast.Attribute) and sub.value.attr == 'attrs' \
-                    and isinstance(sub.slice, ast.Constant) and isinstance(sub.ctx, ast.Load):
-                key = sub.slice.value
-                guarded = any(isinstance(t, ast.Compare) and isinstance(t.ops[0], ast.In) and const_value(t.left, None) == key
-                              and norm_text(t.comparators[0]) == norm_text(sub.value) for t in ast.walk(node))
-                in_try = any(isinstance(t, ast.Try) and any(x is node for b in t.body for x in ast.walk(b))
-                             and any(h.type is None or 'KeyError' in norm_text(h.type) or 'LookupError' in norm_text(h.type) or norm_text(h.type) == 'Exception'
-                                     for h in t.handlers) for t in ast.walk(fi.node))
-                if not guarded and not in_try:
-                    bad.append(norm_text(sub))
-        ctx.check('R06.5', not bad, "a scan over all variables never subscripts an attribute that some variables lack", fi, node,
-                  construct=f"{fi.short}: scan over {norm_text(node.generators[0].iter)}: " + (f"unguarded {bad}" if bad else 'attributes read with .get / guarded'))
+    with ctx.section('R06.5 optional attributes in scans'):
+        scans = []
+        for fi in p.functions.values():
+            if not fi.qualname.startswith('emsarray.conventions.') or fi.parent is not None:
+                continue
+            for node in ast.walk(fi.node):
+                if isinstance(node, (ast.GeneratorExp, ast.ListComp)) and len(node.generators) == 1:
+                    it_txt = norm_text(node.generators[0].iter)
+                    if any(it_txt.endswith(s) for s in ('.variables.items()', '.data_vars.items()', '.data_vars.values()', '.variables.values()', '.coords.items()')):
+                        scans.append((fi, node))
+        for fi, node in scans:
+            bad = []
+            for sub in ast.walk(node):
+                if isinstance(sub, ast.Subscript) and isinstance(sub.value, ast.Attribute) and sub.value.attr == 'attrs' \
+                        and isinstance(sub.slice, ast.Constant) and isinstance(sub.ctx, ast.Load):
+                    key = sub.slice.value
+                    guarded = any(isinstance(t, ast.Compare) and isinstance(t.ops[0], ast.In) and const_value(t.left, None) == key
+                                  and norm_text(t.comparators[0]) == norm_text(sub.value) for t in ast.walk(node))
+                    in_try = any(isinstance(t, ast.Try) and any(x is node for b in t.body for x in ast.walk(b))
+                                 and any(h.type is None or 'KeyError' in norm_text(h.type) or 'LookupError' in norm_text(h.type) or norm_text(h.type) == 'Exception'
+                                         for h in t.handlers) for t in ast.walk(fi.node))
+                    if not guarded and not in_try:
+                        bad.append(norm_text(sub))
+            ctx.check('R06.5', not bad, "a scan over all variables never subscripts an attribute that some variables lack", fi, node,
+                      construct=f"{fi.short}: scan over {norm_text(node.generators[0].iter)}: " + (f"unguarded {bad}" if bad else 'attributes read with .get / guarded'))
 
     # ------------------------------------------------------------------ R06.6 validity filter
-    pg = ctx.func(f"{BASE}.polygons")
-    flow = ctx.flow(pg)
-    cfg = ctx.cfg(pg)
-    mk = [c for c in method_calls(pg, '_make_polygons') if flow.canon(c.func.value) == ('param', 'self')]
-    ctx.need('R06.6', len(mk) == 1, "Convention.polygons calls self._make_polygons() once", pg)
-    valid = [c for c in calls_in(pg) if callee(ctx, pg, c) == 'shapely.is_valid']
-    ctx.need('R06.6', len(valid) == 1, "Convention.polygons tests validity with shapely.is_valid", pg)
-    ok = len(valid[0].args) == 1 and flow.resolve(valid[0].args[0]) is mk[0]
-    ctx.check('R06.6', ok, "validity is tested on the full polygon array (positions are linear indexes)", pg, valid[0],
-              construct=f"shapely.is_valid({norm_text(valid[0].args[0]) if valid[0].args else ''})")
-    stores = [n for n in walk_no_nested(pg.node) if isinstance(n, ast.Assign) and isinstance(n.targets[0], ast.Subscript)
-              and flow.resolve(n.targets[0].value) is mk[0]]
-    ok_store = False
-    idx_expr = None
-    for s in stores:
-        if is_none(s.value):
-            idx_expr = flow.resolve(s.targets[0].slice)
-            ok_store = True
-    ctx.check('R06.6', ok_store, "invalid polygons are replaced by None in place", pg, stores[0] if stores else pg.node)
-    ok_idx = False
-    detail = ''
-    if isinstance(idx_expr, ast.Call) and callee(ctx, pg, idx_expr) == 'numpy.flatnonzero' and idx_expr.args:
-        cond = idx_expr.args[0]
-        # every array operand of the condition is aligned with the full array: no compressed / subscripted polygons
-        subs = [n for n, _ in flow.expand(cond) if isinstance(n, ast.Subscript) and flow.reaches(n.value, lambda m: m is mk[0])]
-        inv = [n for n, _ in flow.expand(cond) if isinstance(n, ast.UnaryOp) and isinstance(n.op, ast.Invert)
-               and flow.reaches(n.operand, lambda m: m is valid[0])]
-        nn = flow.reaches(cond, lambda n: isinstance(n, ast.Compare) and isinstance(n.ops[0], (ast.NotEq, ast.IsNot)) and is_none(n.comparators[0]))
-        ok_idx = not subs and bool(inv) and nn
-        detail = f"condition {norm_text(flow.resolve(cond))}"
-    ctx.check('R06.6', ok_idx, "the positions replaced are flatnonzero(<not None> & ~is_valid(<full array>))", pg, stores[0] if stores else pg.node,
-              construct=f"invalid positions: {detail or norm_text(idx_expr) if idx_expr is not None else 'absent'}")
-    warns = [c for c in calls_in(pg) if callee(ctx, pg, c) == 'warnings.warn']
-    ok = any(norm_text(kwarg(c, 'category') or (c.args[1] if len(c.args) > 1 else ast.Constant(None))) == 'InvalidPolygonWarning' for c in warns)
-    ctx.check('R06.6', ok, "dropping a polygon raises an InvalidPolygonWarning", pg, warns[0] if warns else pg.node)
-    rets = pg.returns()
-    filt = [n for n in walk_no_nested(pg.node) if isinstance(n, ast.If) and any(s in stores for s in n.body)]
-    ok = bool(rets) and bool(filt) and all(cfg.dominates(filt[0], r) for r in rets) and all(flow.resolve(r.value) is mk[0] for r in rets)
-    t = emptiness = None
-    if filt:
-        from .common import emptiness_test
-        t = emptiness_test(flow, filt[0].test)
-        ok = ok and t is not None and t[0] == 'nonempty' and flow.canon(t[1]) == flow.canon(stores[0].targets[0].slice)
-    ctx.check('R06.6', ok, "every path from _make_polygons() to the return passes the validity filter, applied whenever any polygon is invalid", pg,
-              rets[0] if rets else pg.node, construct=f"filter guard: {norm_text(filt[0].test) if filt else 'absent'}")
-    ro = [n for n in walk_no_nested(pg.node) if isinstance(n, ast.Assign) and norm_text(n.targets[0]).endswith('.flags.writeable')
-          and const_value(n.value, None) is False and flow.resolve(n.targets[0].value.value) is mk[0]]
-    ok = len(ro) == 1 and all(cfg.dominates(ro[0], r) for r in rets)
-    ctx.check('R06.6', ok, "the published array is read-only", pg, ro[0] if ro else pg.node)
+    with ctx.section('R06.6 validity filter'):
+        pg = ctx.func(f"{BASE}.polygons")
+        flow = ctx.flow(pg)
+        cfg = ctx.cfg(pg)
+        mk = [c for c in method_calls(pg, '_make_polygons') if flow.canon(c.func.value) == ('param', 'self')]
+        ctx.need('R06.6', len(mk) == 1, "Convention.polygons calls self._make_polygons() once", pg)
+        valid = [c for c in calls_in(pg) if callee(ctx, pg, c) == 'shapely.is_valid']
+        ctx.need('R06.6', len(valid) == 1, "Convention.polygons tests validity with shapely.is_valid", pg)
+        ok = len(valid[0].args) == 1 and flow.resolve(valid[0].args[0]) is mk[0]
+        ctx.check('R06.6', ok, "validity is tested on the full polygon array (positions are linear indexes)", pg, valid[0],
+                  construct=f"shapely.is_valid({norm_text(valid[0].args[0]) if valid[0].args else ''})")
+        stores = [n for n in walk_no_nested(pg.node) if isinstance(n, ast.Assign) and isinstance(n.targets[0], ast.Subscript)
+                  and flow.resolve(n.targets[0].value) is mk[0]]
+        ok_store = False
+        idx_expr = None
+        for s in stores:
+            if is_none(s.value):
+                idx_expr = flow.resolve(s.targets[0].slice)
+                ok_store = True
+        ctx.check('R06.6', ok_store, "invalid polygons are replaced by None in place", pg, stores[0] if stores else pg.node)
+        ok_idx = False
+        detail = ''
+        if isinstance(idx_expr, ast.Call) and callee(ctx, pg, idx_expr) == 'numpy.flatnonzero' and idx_expr.args:
+            cond = idx_expr.args[0]
+            # every array operand of the condition is aligned with the full array: no compressed / subscripted polygons
+            subs = [n for n, _ in flow.expand(cond) if isinstance(n, ast.Subscript) and flow.reaches(n.value, lambda m: m is mk[0])]
+            inv = [n for n, _ in flow.expand(cond) if isinstance(n, ast.UnaryOp) and isinstance(n.op, ast.Invert)
+                   and flow.reaches(n.operand, lambda m: m is valid[0])]
+            nn = flow.reaches(cond, lambda n: isinstance(n, ast.Compare) and isinstance(n.ops[0], (ast.NotEq, ast.IsNot)) and is_none(n.comparators[0]))
+            ok_idx = not subs and bool(inv) and nn
+            detail = f"condition {norm_text(flow.resolve(cond))}"
+        ctx.check('R06.6', ok_idx, "the positions replaced are flatnonzero(<not None> & ~is_valid(<full array>))", pg, stores[0] if stores else pg.node,
+                  construct=f"invalid positions: {detail or norm_text(idx_expr) if idx_expr is not None else 'absent'}")
+        warns = [c for c in calls_in(pg) if callee(ctx, pg, c) == 'warnings.warn']
+        ok = any(norm_text(kwarg(c, 'category') or (c.args[1] if len(c.args) > 1 else ast.Constant(None))) == 'InvalidPolygonWarning' for c in warns)
+        ctx.check('R06.6', ok, "dropping a polygon raises an InvalidPolygonWarning", pg, warns[0] if warns else pg.node)
+        rets = pg.returns()
+        filt = [n for n in walk_no_nested(pg.node) if isinstance(n, ast.If) and any(s in stores for s in n.body)]
+        ok = bool(rets) and bool(filt) and all(cfg.dominates(filt[0], r) for r in rets) and all(flow.resolve(r.value) is mk[0] for r in rets)
+        t = emptiness = None
+        if filt:
+            from .common import emptiness_test
+            t = emptiness_test(flow, filt[0].test)
+            ok = ok and t is not None and t[0] == 'nonempty' and flow.canon(t[1]) == flow.canon(stores[0].targets[0].slice)
+        ctx.check('R06.6', ok, "every path from _make_polygons() to the return passes the validity filter, applied whenever any polygon is invalid", pg,
+                  rets[0] if rets else pg.node, construct=f"filter guard: {norm_text(filt[0].test) if filt else 'absent'}")
+        ro = [n for n in walk_no_nested(pg.node) if isinstance(n, ast.Assign) and norm_text(n.targets[0]).endswith('.flags.writeable')
+              and const_value(n.value, None) is False and flow.resolve(n.targets[0].value.value) is mk[0]]
+        ok = len(ro) == 1 and all(cfg.dominates(ro[0], r) for r in rets)
+        ctx.check('R06.6', ok, "the published array is read-only", pg, ro[0] if ro else pg.node)
 
     # ------------------------------------------------------------------ R06.7 extent
-    def extent_slots(fi, xname, yname):
-        flow = ctx.flow(fi)
-        rets = fi.returns()
-        if len(rets) != 1:
-            return None
-        v = flow.resolve(rets[0].value)
-        while isinstance(v, ast.Call) and (dotted(v.func) or '').endswith('cast'):
-            v = flow.resolve(v.args[1])
-        if not isinstance(v, ast.Tuple) or len(v.elts) != 4:
-            return None
-        out = []
-        for e in v.elts:
-            r = flow.resolve(e)
-            if isinstance(r, ast.Call) and callee(ctx, fi, r) in ('numpy.nanmin', 'numpy.nanmax') and len(r.args) == 1:
-                fn = callee(ctx, fi, r).rsplit('.', 1)[-1]
-                handle = norm_text(flow.resolve(r.args[0]))
-                alias = flow.canon(r.args[0])
-                out.append((fn, 'x' if xname in repr(alias) else ('y' if yname in repr(alias) else '?'), handle))
-            else:
-                out.append(('?', '?', norm_text(r)))
-        return rets[0], out
+    with ctx.section('R06.7 extent'):
+        def extent_slots(fi, xname, yname):
+            flow = ctx.flow(fi)
+            rets = fi.returns()
+            if len(rets) != 1:
+                return None
+            v = flow.resolve(rets[0].value)
+            while isinstance(v, ast.Call) and (dotted(v.func) or '').endswith('cast'):
+                v = flow.resolve(v.args[1])
+            if not isinstance(v, ast.Tuple) or len(v.elts) != 4:
+                return None
+            out = []
+            for e in v.elts:
+                r = flow.resolve(e)
+                if isinstance(r, ast.Call) and callee(ctx, fi, r) in ('numpy.nanmin', 'numpy.nanmax') and len(r.args) == 1:
+                    fn = callee(ctx, fi, r).rsplit('.', 1)[-1]
+                    handle = norm_text(flow.resolve(r.args[0]))
+                    alias = flow.canon(r.args[0])
+                    out.append((fn, 'x' if xname in repr(alias) else ('y' if yname in repr(alias) else '?'), handle))
+                else:
+                    out.append(('?', '?', norm_text(r)))
+            return rets[0], out
 
-    for qual, xn, yn in ((f"{GRID}.CFGrid.bounds", 'longitude_bounds', 'latitude_bounds'), (f"{UGRID}.UGrid.bounds", 'node_x', 'node_y')):
-        fi = ctx.func(qual)
-        res = extent_slots(fi, xn, yn)
-        ctx.need('R06.7', res is not None, f"{fi.short} returns a 4-tuple", fi)
-        r, slots = res
-        want = [('nanmin', 'x'), ('nanmin', 'y'), ('nanmax', 'x'), ('nanmax', 'y')]
-        for i, (slot, w) in enumerate(zip(slots, want)):
-            ctx.check('R06.7', slot[:2] == w, f"slot {i} is {w[0]} of the {w[1]} handle", fi, r,
-                      construct=f"{fi.short}: slot {i} = {slot[0]}({slot[2]})")
-    g = ctx.func(f"{BASE}.geometry")
-    ok = all(norm_text(r.value) == 'shapely.unary_union(self.polygons[self.mask])' for r in g.returns()) and g.returns()
-    ctx.check('R06.7', bool(ok), "the generic geometry is the union of the polygons that exist", g, g.node)
-    b = ctx.func(f"{BASE}.bounds")
-    ok = all('self.geometry.bounds' in norm_text(r.value) for r in b.returns()) and b.returns()
-    ctx.check('R06.7', bool(ok), "the generic bounds are the bounds of that geometry", b, b.node)
-    g1d = ctx.func(f"{GRID}.CFGrid1D.geometry")
-    ok = all(norm_text(r.value) == 'box(*self.bounds)' for r in g1d.returns()) and g1d.returns()
-    ctx.check('R06.7', bool(ok), "the CF 1-D geometry is the box of its bounds (cells tile the rectangle)", g1d, g1d.node)
-    m = ctx.func(f"{BASE}.mask")
-    from .common import polygons_mask_ok
-    ok, how = polygons_mask_ok(ctx, m)
-    ctx.check('R06.6', ok, "the validity mask is derived from the published polygons", m, m.node, construct=f"Convention.mask: {how}")
+        for qual, xn, yn in ((f"{GRID}.CFGrid.bounds", 'longitude_bounds', 'latitude_bounds'), (f"{UGRID}.UGrid.bounds", 'node_x', 'node_y')):
+            fi = ctx.func(qual)
+            res = extent_slots(fi, xn, yn)
+            ctx.need('R06.7', res is not None, f"{fi.short} returns a 4-tuple", fi)
+            r, slots = res
+            want = [('nanmin', 'x'), ('nanmin', 'y'), ('nanmax', 'x'), ('nanmax', 'y')]
+            for i, (slot, w) in enumerate(zip(slots, want)):
+                ctx.check('R06.7', slot[:2] == w, f"slot {i} is {w[0]} of the {w[1]} handle", fi, r,
+                          construct=f"{fi.short}: slot {i} = {slot[0]}({slot[2]})")
+        g = ctx.func(f"{BASE}.geometry")
+        ok = all(norm_text(r.value) == 'shapely.unary_union(self.polygons[self.mask])' for r in g.returns()) and g.returns()
+        ctx.check('R06.7', bool(ok), "the generic geometry is the union of the polygons that exist", g, g.node)
+        b = ctx.func(f"{BASE}.bounds")
+        ok = all('self.geometry.bounds' in norm_text(r.value) for r in b.returns()) and b.returns()
+        ctx.check('R06.7', bool(ok), "the generic bounds are the bounds of that geometry", b, b.node)
+        g1d = ctx.func(f"{GRID}.CFGrid1D.geometry")
+        ok = all(norm_text(r.value) == 'box(*self.bounds)' for r in g1d.returns()) and g1d.returns()
+        ctx.check('R06.7', bool(ok), "the CF 1-D geometry is the box of its bounds (cells tile the rectangle)", g1d, g1d.node)
+        m = ctx.func(f"{BASE}.mask")
+        from .common import polygons_mask_ok
+        ok, how = polygons_mask_ok(ctx, m)
+        ctx.check('R06.6', ok, "the validity mask is derived from the published polygons", m, m.node, construct=f"Convention.mask: {how}")
+
 
 
 # --------------------------------------------------------------------------- checker self-test
